@@ -8,6 +8,7 @@ INVARIANTS
   P_C09_NoPanic
   P_C09_Bound
   P_C09_IgnoreStable
+  P_Ext_Provide
   P_C09_Sane
   Emit
 CHECK_DEADLOCK FALSE
